@@ -282,29 +282,31 @@ def r3(ctx):
             if pol is not None:
                 tests.append((t, pol))
     ctx.need(tests, "C03.R3: test on the fork result not found")
-    for t, pol in tests:
+    # evaluated with the result of fork() given: in the child (0) no path returns into the master's loop and init_process()
+    # is reached; in the parent (4242) every return has recorded the worker -- however many times the result is tested
+    from ..absint import Explorer
+
+    def atom_of(e):
+        if isinstance(e, ast.Call) and repo.call_target(f.module, f, e) == "os.fork":
+            return "FORKPID"
+        return None
+    ipn = [n for n in g.nodes if n.kind == "stmt" and "init_process()" in n.text]
+    t0 = tests[0][0]
+    outs_c = Explorer(f, atom_of=atom_of, follow_implicit_exc=False).run(g.entry, {"FORKPID": 0, "self.WORKERS": {}}, watch={n.id: "init" for n in ipn})
+    ret_c = [o for o in outs_c if o.kind == "return"]
+    ctx.check("C03.R3", not ret_c, key(f, "child-never-returns"), site(f, t0),
+              "the forked child can return from spawn_worker into the master's main loop (a second master would run)", "child branch ends in sys.exit on all paths",
+              path=ret_c and g.fmt_path(list(ret_c[0].path)))
+    ctx.check("C03.R3", any("init" in o.events for o in outs_c), key(f, "child-init-process"), site(f, t0), "the child branch never calls worker.init_process()", "child calls init_process")
+    # (... nor by an exception other than SystemExit: CFG, with the implicit exception edges)
+    for t, pol in tests[:1]:
         child = (t, "true" if pol > 0 else "false")
-        parent = (t, "false" if pol > 0 else "true")
-        r = g.reachable([child], follow_exc=True)
-        p = g.path(t, [g.exit], without_edges=[parent], follow_exc=True) if g.exit in r else None
-        ctx.check("C03.R3", g.exit not in r, key(f, "child-never-returns"), site(f, t),
-                  "the forked child can return from spawn_worker into the master's main loop (a second master would run)", "child branch ends in sys.exit on all paths",
-                  path=p and g.fmt_path(p))
-        # child runs init_process
-        ip = [n for n in r if n.kind == "stmt" and "init_process()" in n.text]
-        ctx.check("C03.R3", bool(ip), key(f, "child-init-process"), site(f, t), "the child branch never calls worker.init_process()", "child calls init_process")
-        # parent stores the worker before returning
-        stores = [n for n in g.stmts(ast.Assign) if any(isinstance(x, ast.Subscript) and tail(x.value) == "WORKERS" for x in n.ast.targets)]
-        rp = g.reachable([parent], follow_exc=False)
-        pst = [s for s in stores if s in rp]
-        ctx.check("C03.R3", bool(pst), key(f, "parent-registers"), site(f, t), "the parent branch does not record the new worker in WORKERS", "WORKERS[pid] = worker")
-        if pst:
-            rets = [n for n in rp if n.kind == "stmt" and isinstance(n.ast, ast.Return)]
-            p = None
-            for rt in rets:
-                if not any(g.dominates(s, rt, follow_exc=False) for s in pst):
-                    p = rt
-            ctx.check("C03.R3", p is None, key(f, "register-before-return"), site(f, t), "the parent can return without recording the worker", "registered on every parent path")
+    outs_p = Explorer(f, atom_of=atom_of, tracked=["self.WORKERS"]).run(g.entry, {"FORKPID": 4242, "self.WORKERS": {}})
+    ret_p = [o for o in outs_p if o.kind == "return"]
+    ctx.check("C03.R3", bool(ret_p), key(f, "parent-registers"), site(f, t0), "the parent never returns from spawn_worker", "parent returns")
+    unreg = [o for o in ret_p if not (isinstance(o.env.get("self.WORKERS"), dict) and 4242 in o.env["self.WORKERS"])]
+    ctx.check("C03.R3", not unreg, key(f, "register-before-return"), site(f, t0), "the parent can return from spawn_worker without having recorded the new worker in WORKERS", "WORKERS[pid] = worker on every parent return",
+              path=unreg and g.fmt_path(list(unreg[0].path)))
 
 
 def _exit_code_sites(ctx, f):
@@ -650,6 +652,44 @@ def r5(ctx):
                     if pred(c, q):
                         out.append((f, c))
         return out
+    # no child is left untracked: the SIGCHLD of a worker that dies right after fork() (OOM kill, crash in the first
+    # statements) can be handled before `WORKERS[pid] = worker` has run -- reap_workers() finds no entry and drops the pid,
+    # then spawn_worker registers a process that was already reaped: it counts as a live worker until the heartbeat timeout.
+    # SIGCHLD is held back (pthread_sigmask) from before the fork until the pid is registered, in the parent; the child
+    # releases it too (the mask is inherited)
+    fsw = ctx.fn(repo.func(ARB + ".spawn_worker"))
+    gsw = fsw.cfg
+    fk = [n for c in calls_to(repo, fsw, "os.fork") for n in nodes_with(fsw, c)]
+    reg = [n for n in gsw.stmts(ast.Assign) if any(isinstance(t, ast.Subscript) and tail(t.value) == "WORKERS" for t in n.ast.targets)]
+
+    def masks(how):
+        out = []
+        for c in calls_to(repo, fsw, ["signal.pthread_sigmask"]):
+            if c.args and how in norm(c.args[0]) and len(c.args) > 1 and "SIGCHLD" in norm(c.args[1]):
+                out += nodes_with(fsw, c)
+        return out
+    blk, unb = masks("SIG_BLOCK"), masks("SIG_UNBLOCK") + masks("SIG_SETMASK")
+    if fk and reg:
+        held = bool(blk) and all(any(gsw.dominates(b, f_, follow_exc=False) for b in blk) for f_ in fk)
+        # parent: from the fork, SIGCHLD is not released before the registration
+        early = None
+        if held:
+            for f_ in fk:
+                for b, l in f_.out:
+                    if l == "exc":
+                        continue
+                    pth = gsw.path(b, unb, without_nodes=reg, follow_exc=False) if unb else None
+                    if pth is not None and any(x in reg for x in gsw.reachable([b], follow_exc=False)):
+                        # a way to an unblock that avoids the registration: fine only if it is the child's side (never registers)
+                        tests_ = [t for t in gsw.tests() if "pid" in norm(t.ast)]
+                        child_side = any(t in pth for t in tests_)
+                        if not child_side:
+                            early = pth
+        released = bool(unb) and gsw.must_pass(fk[0], unb, exits=[gsw.exit], follow_exc=False) is None
+        ctx.check("C03.R5", held and early is None and released, key(fsw, "registered-before-sigchld"), site(fsw, fk[0]),
+                  "between os.fork() and `WORKERS[pid] = worker` SIGCHLD is not held back: a worker that dies right after the fork is reaped by the handler before it is registered (reap_workers "
+                  "finds no entry), and spawn_worker then records a dead, already reaped pid as a live worker -- the master runs one short until the heartbeat timeout notices",
+                  "pthread_sigmask(SIG_BLOCK, [SIGCHLD]) ... fork ... register ... SIG_UNBLOCK")
     forks = sites_of(lambda c, q: q == "os.fork")
     allowed_fork = {ARB + ".spawn_worker", ARB + ".reexec"}
     for f, c in forks:
